@@ -90,9 +90,14 @@ func genMode(r *simrt.Rand, rw bool) string {
 	return []string{"lock", "lock", "trylock"}[r.Intn(3)]
 }
 
+var thorough bool
+
 func genTasks(r *simrt.Rand, rw bool, keys int, nest bool) [][]Sec {
 	var ts [][]Sec
 	nt := 2 + r.Intn(3)
+	if thorough && r.Intn(3) == 0 {
+		nt = 2 + r.Intn(5)
+	}
 	collide := r.Intn(2) == 0
 	for i := 0; i < nt; i++ {
 		var prog []Sec
@@ -114,6 +119,7 @@ func genTasks(r *simrt.Rand, rw bool, keys int, nest bool) [][]Sec {
 // Generate implements core.Harness.
 func (H) Generate(r *simrt.Rand, tier string) any {
 	s := &Scenario{RW: r.Intn(2) == 0, Keys: 1 + r.Intn(3)}
+	thorough = tier == "thorough"
 	switch r.Intn(10) {
 	case 0, 1, 2: // fault: one holder stalls forever; nobody nests
 		s.Tasks = genTasks(r, s.RW, s.Keys, false)
